@@ -124,7 +124,27 @@ def worker(args):
                 stats["na"] += 1; continue
             stats["cases"] += 1
             stats["classes"][r["meta"]["class"]] = stats["classes"].get(r["meta"]["class"], 0) + 1
-            fs = check_roundtrip(drv, rng, obj, X, stats)
+            # "manually edited groups": a third of the objects get 1-3 valid update_discretizer edits first
+            # (what the edits themselves must satisfy is C17's business; here only the round trip afterwards)
+            edits = []
+            if rng.random() < 0.35:
+                from . import c17
+                for _ in range(rng.randint(1, 3)):
+                    e = c17.gen_edit(rng, obj)
+                    if e is None:
+                        continue
+                    try:
+                        with warnings.catch_warnings():
+                            warnings.simplefilter("ignore")
+                            obj.update_discretizer(*e)
+                        edits.append([e[0], e[1], c17.arg_wire(e[2]), c17.arg_wire(e[3])])
+                    except Exception:
+                        break
+                if edits:
+                    stats["edited"] = stats.get("edited", 0) + 1
+            fs = check_roundtrip(drv, rng, obj, X, stats, " (after manual edits)" if edits else "")
+            for f in fs:
+                f["edits"] = edits
             for f in fs:
                 f["case"] = c04.describe(r)
             fails += fs
